@@ -331,3 +331,11 @@ for _p, _q, _t in (("C07", ["-n", "360"], ["-n", "6000", "-nums", "3000", "-type
     SPECS[_p].extra_targets = SPECS[_p].extra_targets + ["Model/AuparseCheck.vo"]
     SPECS[_p].assumptions = SPECS[_p].assumptions + AUPARSE_ASSUME
     SPECS[_p].modelled = SPECS[_p].modelled + AUPARSE_MODELLED
+
+# the parser is an oracle ARGUMENT of the C15 processor theorems (they hold for every parser); which lines the real one rejects is
+# now modelled and proved (C15_parse_*), and C15_parse_stops_at instantiates C15_parse_first with it
+SPECS["C15"].assumptions[0] = (
+    "aucoalesce.CoalesceMessages/ResolveIDs, the After comparison and the correlator are oracles (explicit arguments of every theorem); "
+    "auparse.ParseLogLine is an explicit argument of the processor theorems too (they hold for every parser) AND is modelled: C15_parse_accepts_iff / "
+    "_err_header_iff / _err_type_iff / _unmodelled_iff say exactly which lines it accepts and rejects, C15_parse_stops_at is C15_parse_first with the "
+    "modelled parser as the oracle (streams inside the modelled domain); level 2 instantiates the correlator with Model/Tracker.v")
